@@ -1,6 +1,7 @@
 import NfpmModel.Contents
 import NfpmModel.Payload
 import NfpmModel.Version
+import NfpmModel.Merge
 /-
   Wire format shared by the driver and the Go harness: one request per line,
   space separated tokens; byte strings are lower-case hex ("-" = empty),
@@ -200,6 +201,25 @@ def showMember (m : Member) : String :=
 
 def showMembers (l : List Member) : String :=
   s!"{l.length}" ++ String.join (l.map (fun m => " " ++ showMember m))
+
+def pVal : P Val := do
+  match (← tok) with
+  | "s" => do let b ← pBytes; pure (.str b)
+  | "l" => do let l ← pList pBytes; pure (.list l)
+  | "n" => do let n ← pInt; pure (.num n)
+  | "b" => do let b ← pBool; pure (.bool b)
+  | t => throw s!"bad value kind {t}"
+
+def pLeaves : P Leaves := pList (do let p ← pBytes; let v ← pVal; pure (p, v))
+
+def showVal : Val → String
+  | .str b => s!"s {hex b}"
+  | .list l => s!"l {l.length}" ++ String.join (l.map (fun b => " " ++ hex b))
+  | .num n => s!"n {n}"
+  | .bool b => s!"b {if b then 1 else 0}"
+
+def showLeaves (l : Leaves) : String :=
+  s!"{l.length}" ++ String.join (l.map (fun (p, v) => s!" {hex p} {showVal v}"))
 
 def pVInfo : P VInfo := do
   let name ← pBytes
